@@ -203,6 +203,15 @@ func c16Invalidations() []invDev {
 	post("ext-key-invalid-utf8", "ext", "", "", func(r *reqSpec, req *signature.SignRequest, rs *envenc.RemoteSigner) {
 		req.ExtendedSignedAttributes = []signature.Attribute{attr("k\xff", false, "v")}
 	})
+	// the other texts of a request: a content type or a signing agent that is not valid UTF-8 cannot be carried by either format (JSON
+	// replaces the bytes silently: the envelope then says something else than the request; a CBOR text string with such bytes is
+	// refused when the envelope is read back)
+	post("content-type-invalid-utf8", "cty", "", "", func(r *reqSpec, req *signature.SignRequest, rs *envenc.RemoteSigner) {
+		req.Payload.ContentType = "application/vnd.x\xff+json"
+	})
+	post("signing-agent-invalid-utf8", "agent", "", "", func(r *reqSpec, req *signature.SignRequest, rs *envenc.RemoteSigner) {
+		req.SigningAgent = "agent/1.0 \xfe\xff"
+	})
 	post("ext-keys-invalid-utf8-colliding-after-replacement", "ext", "", "", func(r *reqSpec, req *signature.SignRequest, rs *envenc.RemoteSigner) {
 		req.ExtendedSignedAttributes = []signature.Attribute{attr("k\xff", false, "a"), attr("k\xfe", true, "b")}
 	})
@@ -229,6 +238,28 @@ func c16Invalidations() []invDev {
 			crit := crit
 			post(fmt.Sprintf("cose-ext-key-above-int64=%s(critical=%v)", bk.n, crit), "ext", "cose", "", func(r *reqSpec, req *signature.SignRequest, rs *envenc.RemoteSigner) {
 				req.ExtendedSignedAttributes = []signature.Attribute{attr(bk.k, crit, "out of range")}
+			})
+		}
+	}
+	// COSE: attribute values that can be written but not read back by the library (an unsigned integer above the int64 range at any
+	// depth; a value nested deeper than the reader follows): the envelope would not parse, so this is not a request to sign
+	deep := func(levels int) any {
+		var v any = "bottom"
+		for i := 0; i < levels; i++ {
+			v = []any{v}
+		}
+		return v
+	}
+	for _, bv := range []struct {
+		n string
+		v any
+	}{{"uint64(2^63)", uint64(1) << 63}, {"uint64(2^64-1)", ^uint64(0)}, {"uint(2^63)", uint(1) << 63}, {"uint64(2^63)-inside-a-list", []any{"x", uint64(1) << 63}},
+		{"uint64(2^63)-inside-a-map", map[any]any{"k": []any{uint64(1) << 63}}}, {"uint64(2^63)-as-a-map-key", map[any]any{uint64(1) << 63: "v"}}, {"nested-40-levels", deep(40)}} {
+		bv := bv
+		for _, crit := range []bool{false, true} {
+			crit := crit
+			post(fmt.Sprintf("cose-ext-value-unreadable=%s(critical=%v)", bv.n, crit), "ext", "cose", "", func(r *reqSpec, req *signature.SignRequest, rs *envenc.RemoteSigner) {
+				req.ExtendedSignedAttributes = []signature.Attribute{attr("io.example.unreadable", crit, bv.v)}
 			})
 		}
 	}
@@ -549,7 +580,7 @@ func init() {
 		Assumptions: []string{"changes of one slot are never combined", "letter-case variants of header names as attribute keys are not judged (they are refused on verification since the F9 fix)"},
 		Init:        func(mc.Tier) (int, error) { envFix.init(); return len(envFix.chains), nil },
 		Scenarios:   c16Scenarios,
-		Alphabet:    func(mc.Tier) map[string]int { return map[string]int{"invalidating_changes": len(c16Invs), "slots": 7} },
+		Alphabet:    func(mc.Tier) map[string]int { return map[string]int{"invalidating_changes": len(c16Invs), "slots": 9} },
 		Guards: func(s *mc.Stats, t mc.Tier) []string {
 			var w []string
 			for _, o := range []string{"refused", "signed", "local-signer-constructed=true", "local-signer-constructed=false"} {
